@@ -200,6 +200,11 @@ type SignerSc struct {
 	SigLen  int  `json:"sig_len"`  // length of the signature the server returns
 	SubstAt int  `json:"subst_at"` // which of the four responses the substitution applies to
 	NoLink  bool `json:"no_link,omitempty"`
+	// BadAttr: 1..4 = the ObjectType / CryptographicAlgorithm / CryptographicUsageMask / Link attribute of the
+	// GetAttributes replies is encoded with a value of the wrong TTLV type (a text string)
+	BadAttr int `json:"bad_attr,omitempty"`
+	// KeyShape: 0 complete key block, 1 key block without key value, 2 key value without material
+	KeyShape int `json:"key_shape,omitempty"`
 }
 
 type C12Sc struct {
@@ -280,6 +285,12 @@ func genC12(g *simrt.Tape, tier string) any {
 	sc := &C12Sc{Op: g.Draw(len(opCases))}
 	if g.Draw(8) == 0 {
 		sc.Signer = &SignerSc{Alg: g.Draw(4), Key: g.Draw(2), SigLen: []int{0, 8, 64, 71, 256}[g.Draw(5)], SubstAt: g.Draw(4), NoLink: g.Draw(8) == 0}
+		if g.Draw(5) == 0 {
+			sc.Signer.BadAttr = 1 + g.Draw(4)
+		}
+		if g.Draw(5) == 0 {
+			sc.Signer.KeyShape = 1 + g.Draw(2)
+		}
 		sc.Op = 0
 		if g.Draw(3) != 0 {
 			sc.Subst = genRespSubst(g)
@@ -340,6 +351,12 @@ func c12Floor(tier string) []*C12Sc {
 		for key := 0; key < 2; key++ {
 			for _, sl := range []int{0, 8, 64, 71, 256} {
 				out = append(out, &C12Sc{Signer: &SignerSc{Alg: alg, Key: key, SigLen: sl}})
+			}
+			for ba := 1; ba <= 4; ba++ {
+				out = append(out, &C12Sc{Signer: &SignerSc{Alg: alg, Key: key, SigLen: 64, BadAttr: ba}})
+			}
+			for ks := 1; ks <= 2; ks++ {
+				out = append(out, &C12Sc{Signer: &SignerSc{Alg: alg, Key: key, SigLen: 64, KeyShape: ks}})
 			}
 			for at := 0; at < 4; at++ {
 				for _, sb := range singles[1:] {
@@ -421,6 +438,14 @@ func signerResp(sg *SignerSc, bi kmip.RequestBatchItem) kmip.OperationPayload {
 		if !sg.NoLink {
 			attrs = append(attrs, kmip.Attribute{AttributeName: kmip.AttributeNameLink, AttributeValue: link})
 		}
+		if sg.BadAttr > 0 {
+			bad := []kmip.AttributeName{kmip.AttributeNameObjectType, kmip.AttributeNameCryptographicAlgorithm, kmip.AttributeNameCryptographicUsageMask, kmip.AttributeNameLink}[(sg.BadAttr-1)%4]
+			for i := range attrs {
+				if attrs[i].AttributeName == bad {
+					attrs[i].AttributeValue = "a text string where another type belongs"
+				}
+			}
+		}
 		return &payloads.GetAttributesResponsePayload{UniqueIdentifier: id, Attribute: attrs}
 	case kmip.OperationGet:
 		var kb kmip.KeyBlock
@@ -432,6 +457,12 @@ func signerResp(sg *SignerSc, bi kmip.RequestBatchItem) kmip.OperationPayload {
 			q := append([]byte{4}, append(p.Gx.FillBytes(make([]byte, 32)), p.Gy.FillBytes(make([]byte, 32))...)...)
 			kb = kmip.KeyBlock{KeyFormatType: kmip.KeyFormatTypeTransparentECPublicKey, CryptographicAlgorithm: kmip.CryptographicAlgorithmEC, CryptographicLength: 256,
 				KeyValue: &kmip.KeyValue{Plain: &kmip.PlainKeyValue{KeyMaterial: kmip.KeyMaterial{TransparentECPublicKey: &kmip.TransparentECPublicKey{RecommendedCurve: kmip.RecommendedCurveP_256, QString: q}}}}}
+		}
+		switch sg.KeyShape {
+		case 1:
+			kb.KeyValue = nil
+		case 2:
+			kb.KeyValue = &kmip.KeyValue{}
 		}
 		return &payloads.GetResponsePayload{ObjectType: kmip.ObjectTypePublicKey, UniqueIdentifier: id, Object: &kmip.PublicKey{KeyBlock: kb}}
 	case kmip.OperationSign:
@@ -625,7 +656,7 @@ func execC12(x *X, scAny any) {
 	countsOK := sc.Subst == nil || (sc.Subst.HeaderDelta == 0 && sc.Subst.ItemsDelta == 0)
 	if sc.Signer != nil {
 		// no panic (checked above) and a result or an error; a consistent, unfalsified server must be accepted
-		consistent := !sc.Subst.violating() && !sc.Signer.NoLink && sc.Signer.SigLen > 0 &&
+		consistent := !sc.Subst.violating() && !sc.Signer.NoLink && sc.Signer.SigLen > 0 && sc.Signer.BadAttr == 0 && sc.Signer.KeyShape == 0 &&
 			((sc.Signer.Alg == 0 && sc.Signer.Key == 0) || ((sc.Signer.Alg == 1 || sc.Signer.Alg == 2) && sc.Signer.Key == 1))
 		if res.err != nil && consistent {
 			x.Reportf("C12.correct-response-rejected", "Signer", "Signer/Sign failed with %v although every response was conformant (alg=%d key=%d siglen=%d)", res.err, sc.Signer.Alg, sc.Signer.Key, sc.Signer.SigLen)
